@@ -132,6 +132,8 @@ let () =
                    (match cls a, cls b with
                     | Some ca, Some cb -> Util.spec (max 0 (ctx.opidx - 1)) "C17_lock_order" (edge_ok ca cb) (Printf.sprintf "%s held while acquiring %s" a b)
                     | _ -> Util.spec (max 0 (ctx.opidx - 1)) "C17_lock_order" false (Printf.sprintf "unknown class %s %s" a b))
+               | [ "lockleft"; op; cls ] ->
+                   Util.spec (try int_of_string op with _ -> 0) "C17_lock_released" false ("the handler returned still holding a " ^ cls ^ " mutex")
                | "leak" :: op :: rest ->
                    Util.spec (try int_of_string op with _ -> 0) "C17_released" false ("still allocated, held by nobody: " ^ String.concat " " rest)
                | _ -> ()) ls
